@@ -30,6 +30,8 @@ def parseAction (s : String) : Option Action :=
   | ["K", p] => do pure (.cancelJoiner (← parseList p))
   | ["N", k, p] => do pure (.nextDone (← k.toNat?) (← parseList p))
   | ["R", p] => do pure (.cancelRem (← parseList p))
+  -- a member's task is handed to the group (or to another group) again: an add of an id that exists
+  | ["A", i, _] => do pure (.spawn (← i.toNat?) false [])
   | _ => none
 
 def obsStr : Obs → String
